@@ -33,7 +33,8 @@ INV = ['CallbacksOnce', 'ResolvedHasCallback', 'CacheExact', 'LostOnlyIfReal',
        'DistinctIdx', 'QuotaRespected', 'SemBounded', 'SlotsConserved', 'InFlightBound',
        'RestartBudget', 'LostNotLate', 'HardWithinScan', 'LostOutcomeReal']
 PROPS = ['OutcomeStable', 'OwnOutcome', 'LateIgnored', 'LostNotEarly', 'LostMarkRight',
-         'VictimGone', 'SoftOnlyIfDue', 'SoftSignalMatchesCallback', 'SoftToRunner',
+         'VictimGone', 'SoftOnlyIfDue', 'SoftSignalMatchesCallback', 'SoftToRunner', 'HardDelivered',
+         'SoftDelivered',
          'SizeAfterMaintain', 'CleanExitsFree', 'NoForkOnRaise', 'AckResetsBudget']
 
 
@@ -42,6 +43,10 @@ KNOWN = {
     'C04': [('TolLateAckStatus', ['LostMarkRight'])],
     'C10': [('TolLateReadySlot', ['SlotsConserved'])],
 }
+
+
+# formulas that exist only in the monitor (they need ghost state computed from observations)
+MON_ONLY = {'C11': ['BudgetEnforced']}
 
 
 class Maker:
@@ -60,9 +65,9 @@ FORMULAS = {
     'C04': (['LostOnlyIfReal', 'LostNotLate', 'LostOutcomeReal', 'QuietResolved'],
             ['LostMarkRight', 'LostNotEarly', 'SizeAfterMaintain', 'OwnOutcome']),
     'C05': (['NoFalseTimeout', 'HardWithinScan', 'TimeoutCallbackOnce', 'TimeoutCallbackArgs'],
-            ['VictimGone', 'OwnOutcome', 'SizeAfterMaintain']),
+            ['VictimGone', 'OwnOutcome', 'SizeAfterMaintain', 'HardDelivered']),
     'C06': (['SoftOnce', 'TimeoutCallbackArgs'],
-            ['SoftOnlyIfDue', 'SoftSignalMatchesCallback', 'SoftToRunner']),
+            ['SoftOnlyIfDue', 'SoftSignalMatchesCallback', 'SoftToRunner', 'SoftDelivered']),
     'C09': (['NeverAbove', 'DistinctIdx', 'QuotaRespected', 'LostOutcomeReal'],
             ['SizeAfterMaintain']),
     'C10': (['SemBounded', 'SlotsConserved', 'InFlightBound'], []),
@@ -258,7 +263,7 @@ def run(ctx, pid):
             # worker processes than the model instance allows for
             mc = dict(c, MaxPid=c['MaxPid'] + 8)
             recipe.conform(ctx, label, src, Maker(c), mon_module='PoolMonitor',
-                           mon_invariants=inv, mon_properties=props,
+                           mon_invariants=inv + MON_ONLY.get(pid, []), mon_properties=props,
                            mon_constants=tla_consts(mc), sample=sample,
                            monitor_all=(kind == 'walks'),
                            known=KNOWN.get(pid, ()) if kind == 'walks' else ())
